@@ -510,7 +510,7 @@ Proof.
   destruct (clo_const_ok fl ps b) eqn:C; auto.
   unfold clo_const_ok in C. apply andb_true_iff in C. destruct C as [G _].
   destruct (gen_check_closed _ _ _ G Sb) as [W _].
-  cbn [sidep cwf]. auto.
+  cbn [sidep cwf cap_ok]. repeat split; auto.
 Qed.
 
 (* ---------- the traversal ---------- *)
